@@ -180,6 +180,23 @@ func init() {
 
 
 		"github.com/miekg/dns.id": func(fr *frame, a []value) value { return fr.i.newNondet(types.Uint16, "dns.Id") },
+		// ---- x/exp/rand: a pick is an explored choice
+		"(*golang.org/x/exp/rand.Rand).Intn": func(fr *frame, a []value) value {
+			n := int(fr.i.asInt(a[1]))
+			if n <= 0 {
+				panic(targetPanic{fr.i.runtimeError("invalid argument to Intn")})
+			}
+			return fr.i.choice(n)
+		},
+		"(*golang.org/x/exp/rand.Rand).Uint64": func(fr *frame, a []value) value { return uint64(0x1234abcd) },
+		"(*golang.org/x/exp/rand.Rand).Seed":   extNop,
+		"(*golang.org/x/exp/rand.Rand).Read": func(fr *frame, a []value) value {
+			b := a[1].([]value)
+			for k := range b {
+				b[k] = uint8(k + 1)
+			}
+			return tuple{len(b), iface{}}
+		},
 		// ---- os / misc
 		"os.Getenv":    func(fr *frame, a []value) value { return "" },
 		"os.LookupEnv": func(fr *frame, a []value) value { return tuple{"", false} },
